@@ -57,22 +57,25 @@ TableOk(rs) == /\ \A r \in rs : RowOk(r)
                /\ \A r1, r2 \in rs : (r1 # r2) => r1[1] # r2[1]                       \* PRIMARY KEY
                /\ \A r1, r2 \in rs : (r1 # r2 /\ r1[2] # N) => r1[2] # r2[2]          \* UNIQUE(a), NULLs distinct
 
-(* ---------- statements: result = [ok, n, rows] ---------- *)
-Res(ok, n, rs) == [ok |-> ok, n |-> n, rows |-> rs]
+(* ---------- statements: result = [ok, n, rows, ret] ---------- *)
+\* ret: the rows a RETURNING id, a, b clause of the statement delivers (C05): the inserted rows, the NEW images of the
+\* updated rows, the deleted rows; nothing when the statement fails
+ResR(ok, n, rs, ret) == [ok |-> ok, n |-> n, rows |-> rs, ret |-> ret]
+Res(ok, n, rs) == ResR(ok, n, rs, {})
 \* INSERT of a sequence of rows: all rows or none
 DoInsert(rs, new) ==
     LET newset == {new[i] : i \in 1..Len(new)}
         distinct == Cardinality(newset) = Len(new)
         after == rs \cup newset
     IN IF distinct /\ Cardinality(after) = Cardinality(rs) + Len(new) /\ TableOk(after)
-         THEN Res(TRUE, Len(new), after) ELSE Res(FALSE, 0, rs)
+         THEN ResR(TRUE, Len(new), after, newset) ELSE Res(FALSE, 0, rs)
 DoUpdate(rs, c, v, p) ==
     LET hit == {r \in rs : Matches(r, p)}
         img == {SetCol(r, c, v) : r \in hit}
         after == (rs \ hit) \cup img
     IN IF Cardinality(after) = Cardinality(rs) /\ TableOk(after)
-         THEN Res(TRUE, Cardinality(hit), after) ELSE Res(FALSE, 0, rs)
-DoDelete(rs, p) == LET hit == {r \in rs : Matches(r, p)} IN Res(TRUE, Cardinality(hit), rs \ hit)
+         THEN ResR(TRUE, Cardinality(hit), after, img) ELSE Res(FALSE, 0, rs)
+DoDelete(rs, p) == LET hit == {r \in rs : Matches(r, p)} IN ResR(TRUE, Cardinality(hit), rs \ hit, hit)
 
 InsRows == {Row(i, a, b) : i \in Ids, a \in AVals, b \in BVals}
 \* second rows of two-row inserts: a small set that produces every failure kind in second position
@@ -89,7 +92,7 @@ Touched(op) == CASE op.k = "insert" -> {op.rows[j][1] : j \in 1..Len(op.rows)}
                  [] OTHER -> {}
 Step(op, res) == /\ nops' = nops + 1
                  /\ (op.k # "setconfig" => UNCHANGED conf)
-                 /\ hist' = Append(hist, [op |-> op, ok |-> res.ok, n |-> res.n, rows |-> res.rows, intxn |-> txn' # <<>>, touched |-> Touched(op)])
+                 /\ hist' = Append(hist, [op |-> op, ok |-> res.ok, n |-> res.n, rows |-> res.rows, ret |-> res.ret, intxn |-> txn' # <<>>, touched |-> Touched(op)])
 
 Stmt(op, res) == /\ nops < MaxOps
                  /\ rows' = res.rows
